@@ -12,6 +12,8 @@ import GoldilocksVerif.Lemmas.NttTop
 import GoldilocksVerif.Lemmas.BridgeNttComputeR
 import GoldilocksVerif.Lemmas.BridgeNttExtend
 import GoldilocksVerif.Lemmas.BridgeNttExtendEq
+import GoldilocksVerif.Lemmas.BridgeNttExtendBuf
+import GoldilocksVerif.Lemmas.BridgeNttHist
 
 namespace GoldilocksVerif.C05
 open GoldilocksVerif.Model.Ntt GoldilocksVerif.NttSpec Finset
@@ -222,5 +224,121 @@ theorem C05_generated_extendPol_all (maxDomainSize extension : Nat) (o : Obj) (h
     exact c k col hk hcol
 
 end generated_all
+
+/-! ### the generated model WITH A CALLER SCRATCH BUFFER (`buffer != NULL`; Lemmas/BridgeNttExtendBuf.lean)
+  The C05 statement says "with or without scratch buffer".  The hand model has no caller buffer (it takes fresh zero-filled
+  scratch per transform); the TRANSLATED `extendPol` passes the caller's block `B` — whatever it holds — to both transforms.
+  Below: for every content of `B` the translated function EQUALS the hand model's `extendPol` bit for bit, under the documented
+  preconditions on the buffer (an existing block other than the output's, the input's and the object's, at least N_ext·ncols
+  words); the buffer block keeps its size. -/
+section generated_buffer
+open GoldilocksVerif.BridgeNtt Gen.NttGen
+
+/-- generated `extendPol` with a caller buffer = the model's `extendPol`, bit for bit (every `nblock`, 1 ≤ 2^dn ≤ 2^de ≤ 2^30, output =
+    input block or another block, any cache state, ANY buffer content); afterwards as in `C05_generated_extendPol_eq_model`, the
+    buffer block has its size, the caller's blocks other than the output and the buffer are unchanged -/
+theorem C05_generated_extendPol_buffer_eq_model (fuel : Nat) (hf : 64 ≤ fuel) (hp : Heap) (self : NTT_Goldilocks) (o : Obj)
+    (hrep : ObjRep hp self o) (hin : ObjIn hp self) (hdisj : ObjDisj self) (hos : o.s ≤ 32) (hext31 : o.extension < 2 ^ 31)
+    (Out In B : Nat) (hOut : Out < hp.size) (hIn : In < hp.size) (hB : B < hp.size) (hOut0 : Out ≠ 0) (hB0 : B ≠ 0)
+    (hOB : Out ≠ B) (hIB : In ≠ B)
+    (hfrOut : ObjFrame self Out) (hfrIn : ObjFrame self In) (hfrB : ObjFrame self B)
+    (dn de nc : Nat) (hde : dn ≤ de) (hde30 : de ≤ 30) (hdns : dn ≤ o.s) (hnc : 1 ≤ nc)
+    (hbound : 2 ^ de * nc * 8 < 2 ^ 64) (nphase nblock : BitVec 64)
+    (hout : 2 ^ de * nc ≤ (hp.block Out).size) (hbuf : 2 ^ de * nc ≤ (hp.block B).size) (hf1 : dn = 0 → nc < fuel) :
+    match extendPol o (decide (Out = In)) (hp.block Out) (hp.block In) (2 ^ de) (2 ^ dn) nc nphase.toNat nblock.toNat with
+    | .ok (o', out) => ∃ hp' self',
+        NTT_extendPol fuel hp self ⟨Out, 0⟩ ⟨In, 0⟩ (bv (2 ^ de)) (bv (2 ^ dn)) (bv nc) ⟨B, 0⟩ nphase nblock =
+          some (hp', self') ∧
+        hp'.block Out = out ∧ ObjRep hp' self' o' ∧ ObjIn hp' self' ∧ ObjDisj self' ∧ hp.size ≤ hp'.size ∧
+        (hp'.block B).size = (hp.block B).size ∧
+        (∀ c, c < hp.size → c ≠ Out → c ≠ B → ObjFrame self c → hp'.block c = hp.block c) ∧
+        (∀ c, c < hp.size → ObjFrame self c → ObjFrame self' c)
+    | .error _ =>
+        NTT_extendPol fuel hp self ⟨Out, 0⟩ ⟨In, 0⟩ (bv (2 ^ de)) (bv (2 ^ dn)) (bv nc) ⟨B, 0⟩ nphase nblock = none :=
+  extendPol_gen_buf_eq fuel hf hp self o hrep hin hdisj hos hext31 Out In B hOut hIn hB hOut0 hB0 hOB hIB hfrOut hfrIn hfrB dn de nc
+    hde hde30 hdns hnc hbound nphase nblock hout hbuf hf1
+
+/-- **the property on the generated function called with a caller scratch buffer, every `nblock`, 1 ≤ N = 2^dn ≤ N_ext = 2^de ≤ 2^30**,
+    on any reachable object state, for ANY content of the buffer: it returns, and the output block holds for every column the
+    values f(7·ω_de^k) of the interpolant f of the input column -/
+theorem C05_generated_extendPol_buffer_all (maxDomainSize extension : Nat) (o : Obj)
+    (hbase : mkObj maxDomainSize extension = some o.base)
+    (hwf : o.wf) (hext : extension ≤ 1) (dn de : Nat) (hn : 2 ^ dn ≤ maxDomainSize) (hne : dn ≤ de) (hde : de ≤ 30)
+    (fuel : Nat) (hf : 64 ≤ fuel) (hp : Heap) (self : NTT_Goldilocks) (hrep : ObjRep hp self o) (hin : ObjIn hp self)
+    (hdisj : ObjDisj self)
+    (Out In B : Nat) (hOut : Out < hp.size) (hIn : In < hp.size) (hB : B < hp.size) (hOut0 : Out ≠ 0) (hB0 : B ≠ 0)
+    (hOB : Out ≠ B) (hIB : In ≠ B)
+    (hfrOut : ObjFrame self Out) (hfrIn : ObjFrame self In) (hfrB : ObjFrame self B)
+    (ncols : Nat) (nphase nblock : BitVec 64) (hnc : 1 ≤ ncols) (hbound : 2 ^ de * ncols * 8 < 2 ^ 64)
+    (hout : 2 ^ de * ncols ≤ (hp.block Out).size) (hbuf : 2 ^ de * ncols ≤ (hp.block B).size) (hf1 : dn = 0 → ncols < fuel) :
+    ∃ hp' self' o', NTT_extendPol fuel hp self ⟨Out, 0⟩ ⟨In, 0⟩ (bv (2 ^ de)) (bv (2 ^ dn)) (bv ncols) ⟨B, 0⟩ nphase nblock =
+        some (hp', self') ∧ (hp'.block Out).size = (hp.block Out).size ∧ (hp'.block B).size = (hp.block B).size ∧
+      ObjRep hp' self' o' ∧ o'.wf ∧ o'.base = o.base ∧
+      ∀ c, c < ncols → ∃ f : Nat → F,
+        (∀ j, j < 2 ^ dn →
+          ∑ i ∈ range (2 ^ dn), f i * (omega dn ^ j) ^ i = den ((hp.block In).getD (j * ncols + c) 0#64)) ∧
+        (∀ k, k < 2 ^ de →
+          den ((hp'.block Out).getD (k * ncols + c) 0#64) = ∑ i ∈ range (2 ^ dn), f i * (7 * omega de ^ k) ^ i) := by
+  have hm : maxDomainSize ≠ 0 := by have := Nat.two_pow_pos dn; omega
+  have hO0 := mkObj_ok maxDomainSize extension o.base hm hext hbase
+  have ho : setCache o.base o.rcache = o := by cases o; rfl
+  have hO : ObjOk o (log2 maxDomainSize) := by
+    have := hO0.setCache o.rcache (by rw [ho]; exact hwf)
+    rw [ho] at this; exact this
+  obtain ⟨hs1, hs2, hs3⟩ := mkObj_s_val maxDomainSize extension o.base hm hbase
+  have hsb : o.base.s = o.s := rfl
+  have hse : o.base.extension = o.extension := rfl
+  rw [hsb] at hs1 hs2
+  have hd : dn ≤ log2 maxDomainSize := (Nat.le_log2 hm).mpr hn
+  have hd32 : dn ≤ 32 := Nat.le_trans hd hO.dle
+  have hosize : 2 ^ de * ncols ≤ (if decide (Out = In) = true then hp.block In else hp.block Out).size := by
+    by_cases h : Out = In
+    · subst h; simp; omega
+    · simp [h]; omega
+  obtain ⟨o', out, e, hosz, hwf', hbase', c⟩ := extendPol_spec o _ hO (decide (Out = In)) (hp.block Out) (hp.block In) dn de ncols
+    nphase.toNat nblock.toNat hd hne (by omega) hnc hosize
+  have hg := extendPol_gen_buf_eq fuel hf hp self o hrep hin hdisj hs2 (by rw [← hse, hs3]; omega) Out In B hOut hIn hB hOut0 hB0
+    hOB hIB hfrOut hfrIn hfrB dn de ncols hne hde (by omega) hnc hbound nphase nblock hout hbuf hf1
+  rw [e] at hg
+  obtain ⟨hp', self', hrun, hblk, hrep', _, _, _, hbsz, _⟩ := hg
+  have hosz' : out.size = (hp.block Out).size := by
+    rw [hosz]
+    by_cases h : Out = In
+    · subst h; simp
+    · simp [h]
+  refine ⟨hp', self', o', hrun, by rw [hblk, hosz'], hbsz, hrep', hwf', hbase', ?_⟩
+  intro col hcol
+  refine ⟨idft (omega dn) (2 ^ dn) (fun j => cell (hp.block In) ncols j col), ?_, ?_⟩
+  · intro j hj
+    have := (lde_welldef (omega_prim dn hd32) (two_pow_ne_zero dn) (fun j => cell (hp.block In) ncols j col)
+      (idft (omega dn) (2 ^ dn) (fun j => cell (hp.block In) ncols j col))).mpr (fun _ _ => rfl) j hj
+    exact this
+  · intro k hk
+    rw [hblk]
+    exact c k col hk hcol
+
+/-- non-vacuity: the hypotheses are satisfiable — the TRANSLATED constructor on a heap with three caller blocks (input: 4 rows of 2
+    columns; output: 8 rows; scratch buffer: 16 words of junk), then the translated `extendPol` 4 → 8 with the buffer, two column
+    blocks: both return -/
+example : ∃ st0 hp' self',
+    NTT_ctor 64 ⟨#[#[], Array.replicate 8 5#64, Array.replicate 16 0#64, Array.replicate 16 9#64]⟩ NTT_Goldilocks.init 8#64 1#32
+      ((1 : Nat) : Int) = some st0 ∧
+    NTT_extendPol 64 st0.1 st0.2 ⟨2, 0⟩ ⟨1, 0⟩ (bv (2 ^ 3)) (bv (2 ^ 2)) (bv 2) ⟨3, 0⟩ 3#64 2#64 = some (hp', self') := by
+  obtain ⟨o0, ho0⟩ := mkObj_some 8 1 (by decide)
+  obtain ⟨st0, hc, hinv, hblk⟩ := ctor_inv 64 (by omega)
+    ⟨#[#[], Array.replicate 8 5#64, Array.replicate 16 0#64, Array.replicate 16 9#64]⟩ (by decide) NTT_Goldilocks.init 8#64 1#32 1
+    (by decide) o0 ho0
+  obtain ⟨⟨o, hbase, hwf, hrep⟩, hin, hdisj, hsize, huser⟩ := hinv
+  have hsz : 4 ≤ st0.1.size := hsize
+  obtain ⟨_, _, f1, s1⟩ := huser 1 ⟨by decide, by decide⟩
+  obtain ⟨_, _, f2, s2⟩ := huser 2 ⟨by decide, by decide⟩
+  obtain ⟨_, _, f3, s3⟩ := huser 3 ⟨by decide, by decide⟩
+  obtain ⟨hp', self', _, hrun, _⟩ := C05_generated_extendPol_buffer_all 8 1 o (by rw [hbase]; exact ho0) hwf (by omega) 2 3
+    (by omega) (by omega) (by omega) 64 (by omega) st0.1 st0.2 hrep hin hdisj 2 1 3 (by omega) (by omega) (by omega) (by omega)
+    (by omega) (by omega) (by omega) f2 f1 f3 2 3#64 2#64 (by omega) (by omega) (by rw [s2]; decide) (by rw [s3]; decide)
+    (by omega)
+  exact ⟨st0, hp', self', hc, hrun⟩
+
+end generated_buffer
 
 end GoldilocksVerif.C05
